@@ -31,3 +31,6 @@ def run(rep):
     mr.rule_other_text(rep, "C03.other")
     # tag names come from the tag-line splitter
     lr.rule_tags(rep, "C03.tagline")
+    # free text, names and cell texts are exact: only line terminators are cut from matched text; cells are split as documented
+    mr.rule_sink(rep, "C03.sinkcol", "C03.crlf", want=("crlf",))
+    lr.rule_split(rep, "C03.split", "C03.splitcol")
